@@ -9,5 +9,6 @@ NEXT Next
 CHECK_DEADLOCK FALSE
 INVARIANTS
   TypeOK
+  OrderIndependent
   UnreadTouchesNothing
   Contained
